@@ -21,6 +21,7 @@ import (
 	"io"
 	"math/rand"
 	"net"
+	"os"
 	"regexp"
 	"strconv"
 	"strings"
@@ -31,6 +32,8 @@ import (
 	"github.com/valyala/fasthttp/fasthttputil"
 	"verif/harness/hlib"
 )
+
+var debug = os.Getenv("C04DEBUG") != ""
 
 const (
 	U = 128     // bytes per body unit
@@ -67,7 +70,7 @@ type optsD struct {
 }
 
 type opD struct {
-	Op    string   `json:"op"` // call | more | sread | sclose | clean
+	Op    string   `json:"op"` // call | more | conn (T = connection number) | sread | sclose | clean
 	T     int      `json:"t,omitempty"`
 	Opts  *optsD   `json:"opts,omitempty"`
 	Sc    *scriptD `json:"sc,omitempty"`
@@ -125,11 +128,17 @@ func dataUnit(id, j int) []byte {
 	return []byte(s + strings.Repeat("x", U-len(s)))
 }
 
-// wireChunks renders the wire form of a response to request id as one chunk per symbol.
+// wireChunks renders the wire form of a response to request id as one piece per symbol (coq: wire / chunk_form).
+// A chunked body is ONE chunk holding all units: the size line is a piece of its own, the CRLF that ends the chunk data rides on the
+// last unit, "0 CRLF CRLF" is the terminator.
 func wireChunks(id int, isHead bool, r respD) [][]byte {
 	out := [][]byte{headBytes(r.Head, id, false)}
 	if isHead || r.Head.NoBody {
 		return out
+	}
+	chunked := r.Head.Fr == "chunked"
+	if chunked && len(r.Body) > 0 {
+		out = append(out, []byte(fmt.Sprintf("%x\r\n", len(r.Body)*U)))
 	}
 	for j, u := range r.Body {
 		var unit []byte
@@ -138,12 +147,12 @@ func wireChunks(id int, isHead bool, r respD) [][]byte {
 		} else {
 			unit = headBytes(*u, P+id, true)
 		}
-		if r.Head.Fr == "chunked" {
-			unit = append(append([]byte(fmt.Sprintf("%x\r\n", U)), unit...), '\r', '\n')
+		if chunked && j == len(r.Body)-1 {
+			unit = append(append([]byte(nil), unit...), '\r', '\n')
 		}
 		out = append(out, unit)
 	}
-	if r.Head.Fr == "chunked" {
+	if chunked {
 		out = append(out, []byte("0\r\n\r\n"))
 	}
 	return out
@@ -257,6 +266,7 @@ func (c *fconn) Write(p []byte) (int, error) {
 		if c.srvClosed {
 			continue
 		}
+		c.send(len(c.pending)) // whatever the server was holding back goes out before it looks at the next request
 		m := reXID.FindSubmatch(reqb)
 		if m == nil {
 			panic("scripted server: request without X-Id: " + string(reqb))
@@ -277,19 +287,7 @@ func (c *fconn) Write(p []byte) (int, error) {
 	return len(p), nil
 }
 
-func wfResp(r respD) bool {
-	switch r.Head.Fr {
-	case "len":
-		return len(r.Body) == r.Head.N
-	case "chunked":
-		for _, u := range r.Body {
-			if u != nil {
-				return false
-			}
-		}
-	}
-	return true
-}
+func wfResp(r respD) bool { return r.Head.Fr != "len" || len(r.Body) == r.Head.N }
 
 func (c *fconn) Read(p []byte) (int, error) {
 	if c.closed {
@@ -303,6 +301,9 @@ func (c *fconn) Read(p []byte) (int, error) {
 		case c.srvClosed:
 			return 0, io.EOF
 		case !c.rdl.IsZero():
+			if debug {
+				fmt.Fprintf(os.Stderr, "conn %d: Read times out (pending %d)\n", c.id, len(c.pending))
+			}
 			return 0, timeoutErr{}
 		default:
 			panic("scripted connection: Read would block for ever (no deadline set)")
@@ -412,6 +413,18 @@ func runSeq(d desc) (obs [][]uint64) {
 				}
 			}
 			obs = append(obs, []uint64{})
+		case "conn":
+			if debug && op.T < len(nw.conns) {
+				c := nw.conns[op.T]
+				fmt.Fprintf(os.Stderr, "conn %d: closed=%v srvClosed=%v pending=%d ready=%d\n", op.T, c.closed, c.srvClosed, len(c.pending), len(c.ready))
+			}
+			if op.T < len(nw.conns) && !nw.conns[op.T].closed {
+				nw.conns[op.T].send(op.N)
+				if op.Close {
+					nw.conns[op.T].srvClosed = true
+				}
+			}
+			obs = append(obs, []uint64{})
 		case "sread":
 			s := streams[op.T]
 			if s == nil {
@@ -431,6 +444,9 @@ func runSeq(d desc) (obs [][]uint64) {
 					status = 1
 				} else {
 					status = 2
+					if debug {
+						fmt.Fprintf(os.Stderr, "sread t=%d: m=%d err=%v\n", op.T, m, err)
+					}
 				}
 				break
 			}
@@ -495,6 +511,8 @@ func coqOp(op opD) string {
 		return hlib.App("OpCall", nat(op.T), o, sc)
 	case "more":
 		return hlib.App("OpSrvMore", nat(op.T), nat(op.N), hlib.Bool(op.Close))
+	case "conn":
+		return hlib.App("OpSrvConn", nat(op.T), nat(op.N), hlib.Bool(op.Close))
 	case "sread":
 		return hlib.App("OpStreamRead", nat(op.T), nat(op.N))
 	case "sclose":
@@ -553,7 +571,7 @@ func tokens(id, n int) []byte {
 
 // behaviour of one request, derived from (seed, id) on both sides
 type beh struct {
-	mode    string // full | tail | cut | close | chunked | big | notmod
+	mode    string // full | tail | cut | close | chunked | big | ident | notmod
 	pad     int    // filler bytes before the crafted response
 	fakeLen int    // body length announced by the crafted response
 	delay   time.Duration
@@ -567,7 +585,7 @@ type beh struct {
 func behOf(seed int64, id int, withSkip bool) beh {
 	r := rand.New(rand.NewSource(seed*1000003 + int64(id)))
 	b := beh{pad: 6 * (20 + r.Intn(200)), fakeLen: 8 * (2 + r.Intn(8)), delay: time.Duration(r.Intn(4)) * time.Millisecond}
-	b.mode = hlib.Pick(r, []string{"full", "full", "tail", "tail", "cut", "close", "chunked", "big", "notmod"})
+	b.mode = hlib.Pick(r, []string{"full", "full", "tail", "tail", "cut", "close", "chunked", "chunked", "big", "big", "ident", "notmod"})
 	b.head = r.Intn(6) == 0
 	b.stream = r.Intn(3) == 0
 	b.early = r.Intn(2) == 0
@@ -621,6 +639,18 @@ func stressServe(c net.Conn, seed int64, withSkip bool, wg *sync.WaitGroup) {
 				return
 			}
 			continue
+		case b.mode == "chunked" && id%2 == 0:
+			// one chunk holding filler and crafted response: a caller that stops after the filler leaves the crafted response
+			// (sent later) at the front of the unread tail
+			fmt.Fprintf(&w, "HTTP/1.1 200 OK\r\nX-Id: %d\r\nTransfer-Encoding: chunked\r\n\r\n%x\r\n%s", id, total, pre)
+			if _, err := c.Write(w.Bytes()); err != nil {
+				return
+			}
+			time.Sleep(b.delay + time.Millisecond)
+			if _, err := c.Write(append(append([]byte(nil), fake...), "\r\n0\r\n\r\n"...)); err != nil {
+				return
+			}
+			continue
 		case b.mode == "chunked":
 			fmt.Fprintf(&w, "HTTP/1.1 200 OK\r\nX-Id: %d\r\nTransfer-Encoding: chunked\r\n\r\n%x\r\n%s\r\n", id, len(pre), pre)
 			if _, err := c.Write(w.Bytes()); err != nil {
@@ -631,6 +661,14 @@ func stressServe(c net.Conn, seed int64, withSkip bool, wg *sync.WaitGroup) {
 				return
 			}
 			continue
+		case b.mode == "ident":
+			fmt.Fprintf(&w, "HTTP/1.1 200 OK\r\nX-Id: %d\r\n\r\n%s", id, pre)
+			if _, err := c.Write(w.Bytes()); err != nil {
+				return
+			}
+			time.Sleep(b.delay + time.Millisecond)
+			c.Write(fake)
+			return
 		}
 		fmt.Fprintf(&w, "HTTP/1.1 200 OK\r\nX-Id: %d\r\nContent-Length: %d\r\n", id, total)
 		if b.mode == "close" {
@@ -868,7 +906,7 @@ func genResp(r *rand.Rand) respD {
 		resp.Head.N = n + 1
 	}
 	// crafted units: a complete response head followed by exactly the body it announces
-	if n >= 1 && r.Intn(2) == 0 && (resp.Head.Fr != "chunked" || r.Intn(30) == 0) {
+	if n >= 1 && r.Intn(2) == 0 {
 		at := r.Intn(n)
 		m := n - at - 1
 		if r.Intn(3) == 0 && m > 0 {
@@ -890,6 +928,9 @@ func wireLen(isHead bool, r respD) int {
 	n := 1 + len(r.Body)
 	if r.Head.Fr == "chunked" {
 		n++
+		if len(r.Body) > 0 {
+			n++
+		}
 	}
 	return n
 }
@@ -941,6 +982,9 @@ func genSeq(r *rand.Rand) desc {
 				d.Ops = append(d.Ops, opD{Op: "sclose", T: s, Close: r.Intn(6) == 0})
 				open = append(open[:i], open[i+1:]...)
 			}
+		}
+		if r.Intn(6) == 0 {
+			d.Ops = append(d.Ops, opD{Op: "conn", T: r.Intn(3), N: 1 + r.Intn(6), Close: r.Intn(5) == 0})
 		}
 		if r.Intn(15) == 0 {
 			d.Ops = append(d.Ops, opD{Op: "clean"})
@@ -1006,6 +1050,27 @@ func corpus() []desc {
 	// streamed body larger than the limit, closed exactly where a crafted response starts: the connection must not be reused
 	for at := 0; at < 4; at++ {
 		add(2, 1, call(0, stream, full(crafted("len", 5, at))), opD{Op: "sread", T: 0, N: at}, opD{Op: "sclose", T: 0}, call(1, get, full(lenResp(1))))
+	}
+	// the same for every framing, with the tail held back by the server until after the close: it is delivered explicitly ("conn")
+	// or when the next request arrives; the tail starts with a complete crafted response.  The connection must not be pooled.
+	for _, fr := range []string{"len", "chunked", "ident"} {
+		for k := 0; k <= 2; k++ {
+			resp := crafted(fr, 5, k)
+			if k == 2 {
+				resp.Body[k] = &headD{Fr: "len", N: 1} // crafted response shorter than the tail
+			}
+			sent := 1 + k
+			if fr == "chunked" {
+				sent++
+			}
+			part := scriptD{Resp: resp, Send: sent}
+			add(2, 1, call(0, stream, part), opD{Op: "sread", T: 0, N: k}, opD{Op: "sclose", T: 0}, opD{Op: "conn", T: 0, N: 9},
+				call(1, get, full(lenResp(1))), call(2, get, full(lenResp(1))))
+			add(2, 1, call(0, stream, part), opD{Op: "sread", T: 0, N: k}, opD{Op: "sclose", T: 0},
+				call(1, get, full(lenResp(1))), call(2, head, full(lenResp(1))))
+			add(0, 1, call(0, stream, part), opD{Op: "sread", T: 0, N: k}, opD{Op: "sclose", T: 0, Close: true}, opD{Op: "conn", T: 0, N: 9},
+				call(1, get, full(lenResp(1))))
+		}
 	}
 	// ... read to the end: reused
 	add(2, 1, call(0, stream, full(crafted("len", 5, 2))), opD{Op: "sread", T: 0, N: 5}, opD{Op: "sclose", T: 0}, call(1, get, full(lenResp(1))))
